@@ -123,7 +123,7 @@ func runPoolAccounting(t testing.TB, c *ev.Collector, n int) {
 			}
 			return !strings.Contains(v.Str, "no interpreters available")
 		}},
-		{"live-fence-open-close", n / 2, func(i int) bool {
+		{"live-fence-open-close", n + 10, func(i int) bool {
 			lc, err := srv.Dial()
 			if err != nil {
 				return true
@@ -195,6 +195,6 @@ func runPoolAccounting(t testing.TB, c *ev.Collector, n int) {
 func TestC18_PoolAccounting(t *testing.T) {
 	c := ev.New(prop, "poolacct", "exploration")
 	t.Cleanup(c.Flush)
-	c.Rule("pool accounting for fences with WHEREEVAL filters (5 clauses = 5 interpreters per definition, the pool refuses to exceed 1000): 210 (thorough 420) cycles each of SETCHAN+DELCHAN, SETCHAN replaced by a different definition, SETCHAN re-defined unchanged, SETCHAN+PDELCHAN, SETCHAN with a bad/missing FENCE after the valid filters, EVAL calling tile38.pcall('within',...,'whereeval',...,'fence',...); half as many SETCHAN+FLUSHDB and live WITHIN ... FENCE connections opened and closed; a quarter SETHOOK+DELHOOK; 26 channels with 40 filters each that expire after 50 ms. After every path: a search with 12 WHEREEVAL clauses that each compare ARGV[1] with their own argument must count 1 (an interpreter handed out twice would show the later clause's ARGV), and EVAL/EVALRO/EVALNA must work; 'no interpreters available' that persists for 5 s is a leak. Each path is a non-trivial case.")
+	c.Rule("pool accounting for fences with WHEREEVAL filters (5 clauses = 5 interpreters per definition, the pool refuses to exceed 1000): 210 (thorough 420) cycles each of SETCHAN+DELCHAN, SETCHAN replaced by a different definition, SETCHAN re-defined unchanged, SETCHAN+PDELCHAN, SETCHAN with a bad/missing FENCE after the valid filters, EVAL calling tile38.pcall('within',...,'whereeval',...,'fence',...); as many live WITHIN ... FENCE connections opened and closed; half as many SETCHAN+FLUSHDB; a quarter SETHOOK+DELHOOK; 26 channels with 40 filters each that expire after 50 ms. After every path: a search with 12 WHEREEVAL clauses that each compare ARGV[1] with their own argument must count 1 (an interpreter handed out twice would show the later clause's ARGV), and EVAL/EVALRO/EVALNA must work; 'no interpreters available' that persists for 5 s is a leak. Each path is a non-trivial case.")
 	runPoolAccounting(t, c, ev.Pick(210, 420))
 }
